@@ -146,6 +146,8 @@ def run_literal(el, w, unchecked, tier):
             combos.append(sh)
     if el == B:
         combos.append(('opaque',) * 9); combos.append(('true', 'opaque', 'false', 'false', 'true', 'opaque', 'true', 'true', 'local', 'opaque'))
+    # elements whose own evaluation needs temporaries on the frame while the new array is already allocated below them
+    combos += [('nested',), ('opaque', 'nested'), ('nested', 'opaque', 'nested')]
     for sh in combos:
         L = Lemma(f'array/literal/{el}/{",".join(sh)}/w{w}/{"unchecked" if unchecked else "checked"}', w, unchecked)
         L.functions.update(GEN)
@@ -154,6 +156,12 @@ def run_literal(el, w, unchecked, tier):
             for k, s in enumerate(sh):
                 if s in ('true', 'false'):
                     vals.append(ast.BoolValue(s == 'true', SPAN))
+                elif s == 'nested':
+                    if el == B:
+                        vals.append(ast.Lt(None, ast.Add(None, L.opaque(f'p{k}'), L.opaque(f'q{k}')), L.opaque(f'r{k}')))
+                    else:
+                        inner = ast.Add(None, L.opaque(f'p{k}'), ast.Mul(None, L.opaque(f'q{k}'), L.opaque(f'r{k}')))
+                        vals.append(inner if el == I else ast.IntToByte(inner))
                 else:
                     vals.append(getattr(L, s)(f'e{k}', el))
             e = ast.ArrayLiteral(tuple(vals), SPAN, ArrayType(el, const=False), True)
